@@ -63,6 +63,13 @@ LIFTED_BY_PROP = {
 }
 
 
+# theorems proved directly of the translated code (no model in between): module, theorems, the translations they talk about
+SOURCE_BY_PROP = {
+    'C01': ('QsProofs.Tie.Source.C01', ['Qs.Src.C01_src_subscribe', 'Qs.Src.C01_src_withdraw', 'Qs.Src.C01_src_transact'],
+            ['Portfolio.subscribe', 'Portfolio.withdraw', 'Portfolio.transactAsset']),
+}
+
+
 def _lean_errors(path):
     """line numbers of the errors Lean reports for one file (the file is elaborated to the end)"""
     try:
@@ -177,6 +184,18 @@ def for_property(prop, ties):
             out['failed'].append(dict(key=k, theorem=v['theorem'], python=v['python'], file=v['file']))
         else:
             out['untranslatable'].append(dict(key=k, python=v['python'], reason=v['reason']))
+    out['source'] = []
+    if prop in SOURCE_BY_PROP:
+        mod, thms, needs = SOURCE_BY_PROP[prop]
+        if all(ties.get(k, {}).get('status') in ('proved', 'failed') for k in needs):
+            ok, log = _build([mod])
+            if ok:
+                out['source'] = list(thms)
+                out['modules'].append(mod)
+            else:
+                out['failed'].append(dict(key=mod, theorem=' / '.join(thms), python=', '.join(needs), file='the translated source (QsGen)'))
+        else:
+            out['untranslatable'].append(dict(key=mod, python=', '.join(needs), reason='the methods these theorems talk about are not translatable in their current form'))
     out['lifted'] = []
     if prop in LIFTED_BY_PROP:
         if all(ties.get(k, {}).get('status') == 'proved' for k in LIFTED_REQUIRES):
